@@ -30,6 +30,10 @@ def _ref(t, names):
         return {"$ref": REF + "Missing"}
     if t == "remote":
         return {"$ref": "other.yaml#/components/schemas/Far"}
+    if isinstance(t, tuple) and t[0] == "relfile":      # a relative FILE reference whose fragment names an existing local component
+        return {"$ref": ("common.json", "./shared/defs.yaml", "../x/y.json")[t[1] % 3] + REF + names[t[1] % len(names)]}
+    if isinstance(t, tuple) and t[0] == "host":
+        return {"$ref": "//example.com/defs.json" + REF + names[t[1] % len(names)]}
     return {"$ref": REF + names[t]}
 
 
@@ -155,6 +159,10 @@ def random_spec(rng: random.Random, n: int, p_fail=0.15, cyclic=True):
                 return None
             if x < 0.06:
                 return "remote"
+            if x < 0.09:
+                return ("relfile", rng.randrange(n))
+            if x < 0.10:
+                return ("host", rng.randrange(n))
             if not cyclic and i > 0:
                 return rng.randrange(i)
             return rng.randrange(n)
@@ -186,6 +194,30 @@ def random_spec(rng: random.Random, n: int, p_fail=0.15, cyclic=True):
             node["fail"] = rng.choice(["first", "last"])
         spec.append(node)
     return spec
+
+
+def add_name_clashes(rng, spec, names):
+    """class-name coincidences between an ENUM and a MODEL, in both directions and both declaration orders, inline vs component:
+    component <X>N<i>p<k> (object or enum) next to component X whose property n<i>p<k> is an inline enum / inline object"""
+    cands = [(i, k, kind) for i, nd in enumerate(spec) if nd["type"] == "obj" for k, (kind, _) in enumerate(nd["edges"]) if kind in ("penum", "pinl")]
+    if not cands:
+        return spec, names
+    i, k, kind = rng.choice(cands)
+    twin = f"{names[i]}N{i}p{k}"
+    if twin in names:
+        return spec, names
+    node = {"type": rng.choice(["obj", "enum", "enum"]) if kind == "pinl" else rng.choice(["obj", "obj", "enum"]), "edges": [], "fail": None}
+    if node["type"] == "enum":
+        node["values"] = rng.choice([["u", "v"], ["p", "q", "r"]])      # equal to / different from the inline enum's values
+    pos = rng.choice([0, len(spec)])
+    if pos == 0:
+        # indices shift by one: edges and the generated property names (n<i>p<k>) follow the index, so re-target and rename
+        spec = [node] + [{**nd, "edges": [(kd, (t + 1 if isinstance(t, int) else t)) for kd, t in nd["edges"]]} for nd in spec]
+        names = [f"{names[i]}N{i + 1}p{k}"] + names
+    else:
+        spec = spec + [node]
+        names = names + [twin]
+    return spec, names
 
 
 def random_names(rng, n):
